@@ -8,7 +8,7 @@ from ..cfg import NORMAL, Node, handler_classes
 from ..core import Ctx
 from ..flow import ALL, find_path, names_in
 from ..model import AnalysisError, FunctionInfo, dotted, norm_text
-from .common import (facts_at, str_consts, owner_tops, nonnull_inline_return_edges, cleanup_in_reraising_handler, edge_target, guarded_names, handler_exits, handler_key, handler_nodes, in_handler, kwarg,
+from .common import (facts_at, walk_all, str_consts, owner_tops, nonnull_inline_return_edges, cleanup_in_reraising_handler, edge_target, guarded_names, handler_exits, handler_key, handler_nodes, in_handler, kwarg,
                      path_arg, reachable_from)
 
 EXPLANATION = (
@@ -471,7 +471,7 @@ def r5(ctx: Ctx) -> None:
                "existing_files derives from read_manifest_file(...) by filtering only"
                + (f"; transformed by {[norm_text(h)[:50] for h in helpers]}" if helpers else ""))
     cm = ctx.fn("file_manager.FileManager.create_manifest_file")
-    dicts = [n for n in ast.walk(cm.node) if isinstance(n, ast.Dict)]
+    dicts = [n for n in walk_all(ctx, cm) if isinstance(n, ast.Dict)]
     stored = any(isinstance(k, ast.Constant) and k.value == "checksum" and norm_text(v).endswith(".checksum")
                  for d in dicts for k, v in zip(d.keys, d.values))
     ctx.ob("C14.R5", cm, "manifest writer stores the checksum", None, stored, "'checksum': df.checksum in the entry record")
